@@ -436,10 +436,40 @@ impl std::ops::Neg for Quantity {
     }
 }
 
+impl Quantity {
+    /// The values of both quantities in a common unit. The common unit is the smaller
+    /// of the two units and does not depend on the order of the operands, such that
+    /// comparisons are symmetric: `a == b` iff `b == a`, `a < b` iff `b > a`, even if
+    /// converting one operand into the unit of the other involves rounding.
+    fn values_in_common_unit(&self, other: &Self) -> Option<(Number, Number)> {
+        if self.unit == other.unit || self.is_zero() || other.is_zero() {
+            // A zero can carry any unit (the literal `0` is dimension-polymorphic)
+            return Some((self.value, other.value));
+        }
+
+        let (_, self_factor) = self.unit.to_base_unit_representation();
+        let (_, other_factor) = other.unit.to_base_unit_representation();
+        let common_unit = if self_factor.to_f64() < other_factor.to_f64() {
+            &self.unit
+        } else if other_factor.to_f64() < self_factor.to_f64() {
+            &other.unit
+        } else if self.unit.to_string() <= other.unit.to_string() {
+            &self.unit
+        } else {
+            &other.unit
+        };
+
+        Some((
+            self.convert_to(common_unit).ok()?.value,
+            other.convert_to(common_unit).ok()?.value,
+        ))
+    }
+}
+
 impl PartialEq for Quantity {
     fn eq(&self, other: &Self) -> bool {
-        if let Ok(other_converted) = other.convert_to(self.unit()) {
-            self.value == other_converted.value
+        if let Some((lhs, rhs)) = self.values_in_common_unit(other) {
+            lhs == rhs
         } else {
             false
         }
@@ -448,8 +478,8 @@ impl PartialEq for Quantity {
 
 impl PartialOrd for Quantity {
     fn partial_cmp(&self, other: &Self) -> Option<std::cmp::Ordering> {
-        let other_converted = other.convert_to(self.unit()).ok()?;
-        self.value.partial_cmp(&other_converted.value)
+        let (lhs, rhs) = self.values_in_common_unit(other)?;
+        lhs.partial_cmp(&rhs)
     }
 }
 
@@ -477,23 +507,12 @@ impl Quantity {
             return QuantityOrdering::NanOperand;
         }
 
-        // A zero can carry any unit (the literal `0` is dimension-polymorphic, as in
-        // `0 < 1 s`), so compare it in the unit of the other operand.
-        if self.is_zero() {
-            let cmp = self
-                .value
-                .partial_cmp(&other.value)
-                .expect("unexpectedly got a None partial_cmp from non-NaN arguments");
-            return QuantityOrdering::Ok(cmp);
-        }
-
-        let Ok(other_converted) = other.convert_to(self.unit()) else {
+        let Some((lhs, rhs)) = self.values_in_common_unit(other) else {
             return QuantityOrdering::IncompatibleUnits;
         };
 
-        let cmp = self
-            .value
-            .partial_cmp(&other_converted.value)
+        let cmp = lhs
+            .partial_cmp(&rhs)
             .expect("unexpectedly got a None partial_cmp from non-NaN arguments");
 
         QuantityOrdering::Ok(cmp)
